@@ -1264,13 +1264,13 @@ def OP_LOOP(tape: Tape, stack: Stack, cache: dict) -> None:
     subtape = Tape(
         loop_def, callstack_limit=tape.callstack_limit,
         callstack_count=tape.callstack_count,
-        definitions=tape.definitions, flags=tape.flags,
+        definitions=tape.definitions, flags={**tape.flags},
         contracts=tape.contracts
     )
 
     while bytes_to_bool(condition):
         sert(count < tape.callstack_limit, 'OP_LOOP limit exceeded')
-        run_tape(subtape, stack, cache)
+        run_tape(subtape, stack, cache, additional_flags=tape.flags)
         if 'returned' in cache:
             return
         subtape.reset_pointer()
